@@ -321,7 +321,8 @@ def run(prog, tier) -> Result:
                     return ("result of the operation is not a well-formed term", st.defect)
                 return None
             run_scenario(prog, res, "R07.4", f"Term.{opn}", f"({label(s1)}) {opn} ({label(s2)})", body, judge)
-    un_specs = [[("A", 1), ("2", 1)], [("3", 1), ("A", 1)], [("B", 1), ("V", -2)], [("2", -1)], [("C", 1), ("D", -1)]]
+    un_specs = [[("A", 1), ("2", 1)], [("3", 1), ("A", 1)], [("B", 1), ("V", -2)], [("2", -1)], [("C", 1), ("D", -1)],
+                [("3", 1)], [("2.5", 1)]]
     for spec in un_specs:
         for n in (2, -1, 0, 3):
             def body(I, c, spec=spec, n=n):
@@ -344,24 +345,32 @@ def run(prog, tier) -> Result:
         def body_r(I, c, spec=spec):
             w = World(prog, I, c)
             c.st.world = w
-            return w.call(w.term(build(w, spec)), "reciprocal")
+            r = w.call(w.term(build(w, spec)), "reciprocal")
+            c.st.defect = result_defects(c.st, w, r, prog) if isinstance(r, ObjV) else None
+            return r
         run_scenario(prog, res, "R07.4", "Term.reciprocal", f"1/({label(spec)})", body_r,
-                     lambda o, spec=spec: None if mag(o.state, o.value).equals(
+                     lambda o, spec=spec: (("wrong reciprocal", repr(mag(o.state, o.value)))
+                                           if not mag(o.state, o.value).equals(
                          mag_items(o.state, o.state.world, build(o.state.world, spec)).inv())
-                     else ("wrong reciprocal", repr(mag(o.state, o.value))))
+                         else (("result of reciprocal() is not a well-formed term", o.state.defect)
+                               if getattr(o.state, "defect", None) else None)))
         for kind, val in (("int", 3), ("dec", Fraction(5, 2)), ("frac", Fraction(1, 3))):
             for opn, f in (("__mul__", lambda m, k: m * k), ("__rmul__", lambda m, k: m * k),
                            ("__truediv__", lambda m, k: m / k), ("__rtruediv__", lambda m, k: k / m)):
                 def body_n(I, c, spec=spec, opn=opn, kind=kind, val=val):
                     w = World(prog, I, c)
                     c.st.world = w
-                    return w.call(w.term(build(w, spec)), opn, Num(RF.const(val), kind))
+                    r = w.call(w.term(build(w, spec)), opn, Num(RF.const(val), kind))
+                    c.st.defect = result_defects(c.st, w, r, prog) if isinstance(r, ObjV) else None
+                    return r
 
                 def judge_n(o, spec=spec, f=f, val=val):
                     st = o.state
                     want = f(mag_items(st, st.world, build(st.world, spec)), RF.const(val))
                     if not isinstance(o.value, ObjV) or not mag(st, o.value).equals(want):
                         return ("wrong numeric product / quotient", f"denotes {mag(st, o.value)!r}, contract {want!r}")
+                    if getattr(st, "defect", None):
+                        return ("result of the operation is not a well-formed term", st.defect)
                     return None
                 if tier == "quick" and (kind != "int" or spec not in un_specs[:3]):
                     continue
